@@ -45,6 +45,12 @@ def run_C16(repo, tier, seed):
     sets = [dict(sd=0.162, theta_s=0.88, b=7.4, psi_s=-0.024)]
     for _ in range(1 if tier == "quick" else 10):
         sets.append(dict(sd=rng.uniform(0.05, 1.5), theta_s=rng.uniform(0.3, 0.99), b=rng.uniform(1.0, 18.0), psi_s=rng.uniform(-0.9, -0.011)))
+    # the value is a function of the parameters alone, not of what was constructed earlier in the same process: every
+    # parameter varied one at a time after the published set, and the published set again at the end
+    base = sets[0]
+    for name, val in (("sd", 0.05), ("sd", 0.4), ("theta_s", 0.7), ("b", 3.0), ("psi_s", -0.1)):
+        sets.append(dict(base, **{name: val}))
+    sets.append(dict(base))
     extra_terms = []
     for p in sets:
         try:
